@@ -404,3 +404,12 @@ def lib_mkinstance(inst):
     from dali import address as A
     cls = getattr(A, inst[0])
     return cls(*inst[1:])
+
+
+def table_sendtwice(desc):
+    """Does the STANDARD require this command to be received twice (configuration command)?  From the literal tables."""
+    row = BY_NAME.get((desc[0], desc[1]))
+    if row is None:
+        return False
+    tab, r = row
+    return bool(r[{"GEAR_STD": 5, "GEAR_SPECIAL": 4, "DEV_STD": 3, "DEV_INST": 3, "DEV_SPECIAL": 5}[tab]])
